@@ -10,11 +10,11 @@ namespace XmppModel.StartTLS
 theorem negotiateName_fst (cap : Option Name) (d : Nat) : (negotiateName cap d).1 = cap := by
   cases cap <;> rfl
 
-def SN (cap0 : Option Name) (d : Nat) (pre : Option Name) (s : Sess) : Prop :=
-  s.captured = cap0 ∧ s.domain = d ∧ (∀ n, s.sni = some n → n = (negotiateName cap0 d).2 ∨ pre = some n) ∧
-    ∀ n, Ev.hello n ∈ s.trace → n = (negotiateName cap0 d).2 ∨ pre = some n
+def SN (cap0 : Option Name) (d : Addr) (pre : Option Name) (s : Sess) : Prop :=
+  s.captured = cap0 ∧ s.laddr = d ∧ (∀ n, s.sni = some n → n = (negotiateName cap0 d.dom).2 ∨ pre = some n) ∧
+    ∀ n, Ev.hello n ∈ s.trace → n = (negotiateName cap0 d.dom).2 ∨ pre = some n
 
-theorem SN_ev (cap0 : Option Name) (d : Nat) (pre : Option Name) (s : Sess) (e : Ev) (he : ∀ n, e ≠ .hello n) (h : SN cap0 d pre s) :
+theorem SN_ev (cap0 : Option Name) (d : Addr) (pre : Option Name) (s : Sess) (e : Ev) (he : ∀ n, e ≠ .hello n) (h : SN cap0 d pre s) :
     SN cap0 d pre { s with trace := e :: s.trace } := by
   refine ⟨h.1, h.2.1, h.2.2.1, ?_⟩
   intro n hn
@@ -23,7 +23,7 @@ theorem SN_ev (cap0 : Option Name) (d : Nat) (pre : Option Name) (s : Sess) (e :
   · exact absurd hn.symm (he n)
   · exact h.2.2.2 n hn
 
-theorem SN_io (cap0 : Option Name) (d : Nat) (pre : Option Name) : ClosedIO (SN cap0 d pre) where
+theorem SN_io (cap0 : Option Name) (d : Addr) (pre : Option Name) : ClosedIO (SN cap0 d pre) where
   hello := by
     intro s h
     unfold sendHello
@@ -41,7 +41,7 @@ theorem SN_io (cap0 : Option Name) (d : Nat) (pre : Option Name) : ClosedIO (SN 
   fromTls := fun s u rest h _ _ _ => SN_ev cap0 d pre s _ (fun n hn => by cases hn) h
   fromClear := fun s u us rest h _ _ _ => SN_ev cap0 d pre s _ (fun n hn => by cases hn) h
 
-theorem SN_neg (cap0 : Option Name) (d : Nat) (pre : Option Name) : ClosedNeg (SN cap0 d pre) where
+theorem SN_neg (cap0 : Option Name) (d : Addr) (pre : Option Name) : ClosedNeg (SN cap0 d pre) where
   wHdr := fun s h => SN_ev cap0 d pre s _ (fun n hn => by cases hn) h
   wStartTLS := fun s h => SN_ev cap0 d pre s _ (fun n hn => by cases hn) h
   wOther := fun s id h => SN_ev cap0 d pre s _ (fun n hn => by cases hn) h
@@ -50,7 +50,7 @@ theorem SN_neg (cap0 : Option Name) (d : Nat) (pre : Option Name) : ClosedNeg (S
     intro s h
     obtain ⟨hc, hd, hs, ht⟩ := h
     refine ⟨?_, hd, ?_, ht⟩
-    · show (negotiateName s.captured s.domain).1 = cap0
+    · show (negotiateName s.captured s.laddr.dom).1 = cap0
       rw [negotiateName_fst]; exact hc
     · intro n hn
       simp only [chooseConfig, Option.some.injEq] at hn
@@ -63,21 +63,22 @@ theorem SN_neg (cap0 : Option Name) (d : Nat) (pre : Option Name) : ClosedNeg (S
   restart := fun s h => h
   stateOr := fun s m h => h
 
-theorem SN_install (cap0 : Option Name) (d : Nat) (pre : Option Name) : ClosedInstall (SN cap0 d pre) where
+theorem SN_install (cap0 : Option Name) (d : Addr) (pre : Option Name) : ClosedInstall (SN cap0 d pre) where
   installTls := fun s h => SN_ev cap0 d pre (restartDec s) _ (fun n hn => by cases hn) h
 
 theorem run_names (cfg : Cfg) (env : Env) (st0 : Mask) (i : Input) (fuel : Nat) :
     (∀ n, Ev.hello n ∈ (run cfg env st0 i fuel).1 →
       n = (negotiateName env.captured env.domain).2 ∨ env.conn.name = some n) ∧
-    capturedAfter cfg env st0 i fuel = env.captured := by
-  unfold run capturedAfter
+    capturedAfter cfg env st0 i fuel = env.captured ∧
+    localAfter cfg env st0 i fuel = ownAddr env st0 := by
+  unfold run capturedAfter localAfter
   split
-  · exact ⟨fun n hn => (by cases hn), rfl⟩
-  · have h0 : SN env.captured env.domain env.conn.name (init env st0 i) :=
+  · exact ⟨fun n hn => (by cases hn), rfl, rfl⟩
+  · have h0 : SN env.captured (ownAddr env st0) env.conn.name (init env st0 i) :=
       ⟨rfl, rfl, fun n hn => Or.inr hn, fun n hn => (by cases hn)⟩
-    have h := loop_all (SN_io env.captured env.domain env.conn.name) (SN_neg env.captured env.domain env.conn.name)
-      (SN_install env.captured env.domain env.conn.name) cfg fuel false (init env st0 i) h0
-    exact ⟨fun n hn => h.2.2.2 n (List.mem_reverse.1 hn), h.1⟩
+    have h := loop_all (SN_io env.captured (ownAddr env st0) env.conn.name) (SN_neg env.captured (ownAddr env st0) env.conn.name)
+      (SN_install env.captured (ownAddr env st0) env.conn.name) cfg fuel false (init env st0 i) h0
+    exact ⟨fun n hn => h.2.2.2 n (List.mem_reverse.1 hn), h.1, h.2.1⟩
 
 /-! ### `Session.features` on a protected stream holds only what was advertised inside TLS -/
 
